@@ -286,6 +286,9 @@ class Ctx:
             if r.get("summary"):
                 summary = r
                 continue
+            if "note" in r:
+                self.extra.setdefault("notes", []).append(str(r)[:300])
+                continue
             if r.get("sample"):
                 if len(self.samples) < 6:
                     self.samples.append(r["sample"])
